@@ -14,11 +14,13 @@ import IsoVerif.Driver.C20
 import IsoVerif.Driver.C06
 import IsoVerif.Driver.C05
 import IsoVerif.Driver.C05Multi
+import IsoVerif.Driver.C05Contigs
 import IsoVerif.Driver.C10
 import IsoVerif.Driver.C09
 import IsoVerif.Driver.C08
 import IsoVerif.Driver.C03
 import IsoVerif.Driver.C03Text
+import IsoVerif.Driver.C03Ref
 import IsoVerif.Driver.C16
 import IsoVerif.Driver.C12
 import IsoVerif.Driver.C07
@@ -49,11 +51,13 @@ def allOps : List (String × Handler) :=
   ++ prefixOps "C06" C06.ops
   ++ prefixOps "C05" C05.ops
   ++ prefixOps "C05M" C05Multi.ops
+  ++ prefixOps "C05C" C05C.ops
   ++ prefixOps "C10" C10.ops
   ++ prefixOps "C09" C09.ops
   ++ prefixOps "C08" C08.ops
   ++ prefixOps "C03" C03.ops
   ++ prefixOps "C03T" C03T.ops
+  ++ prefixOps "C03R" C03R.ops
   ++ prefixOps "C16" C16.ops
   ++ prefixOps "C12" C12.ops
   ++ prefixOps "C07" C07.ops
